@@ -259,8 +259,22 @@ void RouterSession::checkNudging(const char *when) {
                     // every interior segment of the pair must have room on both sides over its whole extent: an interior segment
                     // that runs along a shape edge somewhere is as immovable as an end segment
                     bool w = (aEnd || wide(a0, a1)) && (bEnd || wide(b0, b1));
-                    if (!w) { probe("router.c10-overlap-in-narrow-channel-not-judged"); continue; }
-                    std::string sig = "collinear-overlap-left-in-wide-channel";
+                    // weaker precondition: an interior segment that sits on one limit of its channel (hugs a shape edge) but has the
+                    // room on its other side could still be moved away from the partner
+                    auto oneSide = [&](Pt s0, Pt s1) {
+                        double elo = std::min(coord(s0, o), coord(s1, o)), ehi = std::max(coord(s0, o), coord(s1, o));
+                        double fl = 1e9, fh = 1e9;
+                        for (auto &bx : boxes) {
+                            double olo = o ? bx.y : bx.x, ohi = o ? bx.y + bx.h : bx.x + bx.w;
+                            double plo = dim ? bx.y : bx.x, phi = dim ? bx.y + bx.h : bx.x + bx.w;
+                            if (ohi < elo || olo > ehi) continue;
+                            if (phi <= c0) fl = std::min(fl, c0 - phi); else if (plo >= c0) fh = std::min(fh, plo - c0); else { fl = 0; fh = 0; }
+                        }
+                        return std::max(fl, fh) >= (m + 1) * nd;
+                    };
+                    bool w1 = (aEnd || oneSide(a0, a1)) && (bEnd || oneSide(b0, b1));
+                    if (!w && !w1) { probe("router.c10-overlap-in-narrow-channel-not-judged"); continue; }
+                    std::string sig = w ? "collinear-overlap-left-in-wide-channel" : "collinear-overlap-left:interior-segment-on-its-channel-limit";
                     if (rawKnown && !rawShared) sig += ":overlap-absent-from-raw-routes";      // created by the centring / unifying pre-processing, then not removed
                     std::string ra, rb; for (auto &qq : raw[i]) ra += fmt("(%g,%g)", qq.x, qq.y); for (auto &qq : raw[j]) rb += fmt("(%g,%g)", qq.x, qq.y);
                     std::string da, db; for (auto &qq : A) da += fmt("(%g,%g)", qq.x, qq.y); for (auto &qq : B) db += fmt("(%g,%g)", qq.x, qq.y);
@@ -357,7 +371,9 @@ static Json genNudgeSession(Rng &r, const std::string &tier) {
     Json s = Json::obj(); s.set("kind", "router");
     Json cfg = Json::obj(); cfg.set("mode", "ortho"); cfg.set("transactions", true); cfg.set("cost_oracles", false);
     double nd = (double)r.range(2, 10);
+    double buf = r.chance(0.35) ? r.pick(std::vector<double>{5, 10}) : 0;
     Json params = Json::obj(); params.set("0", 50.0); params.set("7", nd);
+    if (buf > 0) params.set("6", buf);
     if (r.chance(0.15)) params.set("4", 110.0);
     cfg.set("params", params);
     bool optA = r.chance(0.4), optB = r.chance(0.5), optC = r.chance(0.6), optD = r.chance(0.3);
@@ -379,8 +395,13 @@ static Json genNudgeSession(Rng &r, const std::string &tier) {
     auto freept = [&]() {
         for (int t = 0; t < 500; t++) {
             Pt p{(double)r.below(gx * 20 + 1) * 10, (double)r.below(gy * 16 + 1) * 10};
+            if (!rs.empty() && r.chance(0.3)) {
+                // an end point whose end segment will run along the line of some routing-box side (shape side grown by the buffer)
+                const RectB &o = rs[r.below(rs.size())];
+                if (r.chance(0.5)) p.x = r.chance(0.5) ? o.x - buf : o.x + o.w + buf; else p.y = r.chance(0.5) ? o.y - buf : o.y + o.h + buf;
+            }
             bool ok = true;
-            for (auto &o : rs) if (p.x >= o.x - 15 && p.x <= o.x + o.w + 15 && p.y >= o.y - 15 && p.y <= o.y + o.h + 15) ok = false;
+            for (auto &o : rs) if (p.x >= o.x - 15 - buf && p.x <= o.x + o.w + 15 + buf && p.y >= o.y - 15 - buf && p.y <= o.y + o.h + 15 + buf) ok = false;
             for (auto &u : used) if (std::fabs(u.x - p.x) < 25 && std::fabs(u.y - p.y) < 25) ok = false;
             if (ok) { used.push_back(p); return p; }
         }
